@@ -196,6 +196,9 @@ fn lca_pairs_large(ev: &Evidence, k: u32, count: u64, rng: &mut SplitMix) -> Res
         if a != b {
             ev.nontrivial(&(k, a, b, "lca-large"));
         }
+        if i == 1 {
+            ev.sample(&format!("lca_large_{k}"), || json!({"kind": "sampled leaf pair", "n_leaves": n, "leaves": [a, b], "lca_level_by_descent": want, "leaf_lca_level": leaf_lca_level(a, b), "with_node_indices": leaf_lca_level(2 * a, 2 * b)}));
+        }
     }
     ev.eval(count);
     ev.class(&format!("lca_pairs_sampled_2^{k}"));
